@@ -132,6 +132,16 @@ Section Doc.
     - rewrite Hroot. apply (walk S D (op_vars o) Hwf frag_unique frag_targets _ _ _ _ Hrin Hs).
   Qed.
 
+  (** the same for every amount of fuel of the specification-side enumeration: no site is lost to fuel *)
+  Theorem vis_sites_good_any_fuel o fv : In o (doc_ops D) ->
+    Forall (site_good S D (op_vars o))
+           (flat_map (vsites_sel S (vis_enter fv S D []) (sp_root S (op_type o))) (selset_sels (op_sel o))).
+  Proof.
+    intros Hin. pose proof (op_checked S D o Hcheck Hin) as Hc.
+    destruct (check_operation_sound _ _ _ _ Hwf Hc) as [root [Hroot [Hrin [Hd Hs]]]].
+    rewrite Hroot. apply (walk S D (op_vars o) Hwf frag_unique frag_targets _ _ _ _ Hrin Hs).
+  Qed.
+
   Theorem const_sites_good o : In o (doc_ops D) -> Forall (site_good S D None) (op_const_sites o).
   Proof.
     intros Hin. unfold op_const_sites. apply Forall_forall. intros x Hx.
